@@ -493,7 +493,8 @@ class FrameSim(Sim):
             return
         O = st.SG.optim
         ps = [G.T[i] for i in ids]
-        st.opt = O.SGD(ps, lr=0.05, momentum=ev["mom"], weight_decay=ev["wd"]) if ev["kind"] == "SGD" else getattr(O, ev["kind"])(ps, lr=0.05, weight_decay=ev["wd"])
+        st.opt = st.must("C11.harness_optimizer", f"constructing {ev['kind']} over float leaves (some of them not requiring grad)",
+                         lambda: O.SGD(ps, lr=0.05, momentum=ev["mom"], weight_decay=ev["wd"]) if ev["kind"] == "SGD" else getattr(O, ev["kind"])(ps, lr=0.05, weight_decay=ev["wd"]))
         st.opt_ids = ids
 
     def _ev_step(self, st, ev):
